@@ -185,7 +185,20 @@ Definition run_vcase (l : list N) : list (list N) :=
   | _ => [[99]]
   end.
 
-(** entry point: tag 1 = framework case, 2 = validation case *)
+(** sampling case: a distribution and a list of raw sampler results; per raw
+    value the three integer readings of Dist::sample: as a timeout/duration
+    (min(1 day).round()), as a limit (round()), as a counter value (trunc) *)
+Definition run_scase (l : list N) : list (list N) :=
+  match (d <~ pdist ;; raws <~ plist pnum ;; pret (d, raws)) l with
+  | Some ((d, raws), []) =>
+      [N_of_bool (validate_dist d) ::
+       flat_map (fun raw =>
+                   let v := fst (dist_sample_clamped (fun _ => raw) 0 d) in
+                   [f64_round_u64 (fmin v f64_day); f64_round_u64 v; f64_trunc_u64 v]) raws]
+  | _ => [[99]]
+  end.
+
+(** entry point: tag 1 = framework case, 2 = validation case, 3 = sampling case *)
 Definition run_wire (l : list N) : list (list N) :=
   match l with
   | 1 :: rest =>
@@ -194,5 +207,6 @@ Definition run_wire (l : list N) : list (list N) :=
       | _ => [[99]]    (* unparsable case *)
       end
   | 2 :: rest => run_vcase rest
+  | 3 :: rest => run_scase rest
   | _ => [[98]]
   end.
